@@ -119,6 +119,18 @@ def main():
         if pid not in CHECKS:
             continue
         ref, text, tech = CHECKS[pid]
+        # the clause list is taken from the checker's own rule descriptions when a report exists
+        rp = os.path.join(VERIF, 'reports', pid + '.txt')
+        if os.path.exists(rp):
+            rules = []
+            for l in open(rp):
+                if l.startswith('RULE ') and not l.startswith('RULE SELF'):
+                    rid, t = l[5:].split(': ', 1)
+                    t = t.strip()
+                    cut = t.find(': ', 0, 60)
+                    rules.append('%s %s' % (rid, (t[:200] + '…') if len(t) > 200 else t))
+            if rules:
+                text = '; '.join(rules)
         checks.append({
             'property_id': pid,
             'quick_cmd': './nv check %s --tier quick' % pid,
